@@ -161,6 +161,20 @@ CLAIMED = {
         technique="TLA+ exact-lattice spec + TLC exhaustive grid (polynomial identity argument), replay into the implementation",
         ref="4 and 5/C01",
     ),
+    "C27": dict(
+        level="model_checking",
+        text="Prox.tla gives the negative-orthant and scaled-ball proximal maps on integer / Pythagorean lattices (dimension 1..4, radii mu*z "
+             "incl. z <= 0), the Jacobians of the ball's implicit residual at arguments with integer norm, and the prox parameter for "
+             "diagonal mass matrices as exact rationals; TLC verifies that the stated maps are the Euclidean projections (feasible, idempotent, "
+             "projection inequality against every lattice point of the set, non-expansive) and characterises the derivative of the "
+             "normalisation without limits. Every case is evaluated on the real NegativeOrthant / Sphere / estimate_prox_parameter, scaled by "
+             "2^k for k in {0,-10,20,-40,60}, and compared with the spec's rationals.",
+        note="1259 lattice cases x 5 dyadic scales. Inputs are restricted to vectors with integer Euclidean norm so that projections and "
+             "Jacobians are rational; general SPD mass matrices are compared with the definition alpha/diag(W^T M^-1 W) computed by the harness "
+             "(float, 1e-10).",
+        technique="TLA+ exact-lattice spec + TLC exhaustive case enumeration, replay into the implementation",
+        ref="5/C27",
+    ),
 }
 
 NOT_APPLICABLE = {
